@@ -53,16 +53,24 @@ QUICK_SHARDS = 4
 THOROUGH_SHARDS = 16
 
 F161 = "merge() over objects that an earlier merge() yielded raised TypeError (unexpected keyword argument 'children')"
-_STATE = {"f161": 0}
+F162 = "the id of a merged output is already the id of a database feature"
+_STATE = {"F-C16-1": 0, "F-C16-2": 0}
 
 
 def classify_f161(case, detail):
     return isinstance(detail, dict) and str(detail.get("why", "")).startswith(F161)
 
 
-KNOWN = {"F-C16-1": classify_f161}
+def classify_f162(case, detail):
+    return isinstance(detail, dict) and str(detail.get("why", "")).startswith(F162)
+
+
+# inert unless the finding is listed with status "open" in known_findings.json
+KNOWN = {"F-C16-1": classify_f161, "F-C16-2": classify_f162}
 CANONICAL = {"F-C16-1": {"kind": "merge", "source": "objects", "feats": [["a", "+", "exon", 1, 2], ["a", "+", "exon", 5, 6]],
-                         "criteria": list(M.DEFAULT), "again": True, "second": ["seqid"]}}
+                         "criteria": list(M.DEFAULT), "again": True, "second": ["seqid"]},
+             "F-C16-2": {"kind": "merge", "source": "db", "feats": [["a", "+", "exon", 1, 5], ["a", "+", "exon", 3, 9]],
+                         "ids": ["exon_1", "exon_2"], "criteria": list(M.DEFAULT), "again": False}}
 
 
 def setup(ctx):
@@ -210,7 +218,7 @@ def one_merge(ctx, case, db, feats, model_in, desc, step, issued, dbids):
         if o.id is None:
             return bad("a merged output has no id")
         if o.id in dbids:
-            return bad("the id of a merged output is already the id of a database feature", id=o.id)
+            report_pattern(ctx, case, "F-C16-2", {"why": "%s (%s)" % (F162, step), "id": o.id, "criteria": desc})
         if o.id in issued:
             return bad("the id of a merged output is not distinct from the ids of other merged outputs", id=o.id)
         issued.add(o.id)
@@ -225,15 +233,21 @@ def one_merge(ctx, case, db, feats, model_in, desc, step, issued, dbids):
     return out
 
 
-def report_f161(ctx, case, step, desc, ex):
+def report_pattern(ctx, case, fid, detail):
+    """A defect pattern that recurs in a large share of the cases: every occurrence is a violation when the finding is
+    listed (the runner then counts them as known); otherwise the first two per shard are reported and the rest counted,
+    so that the replay slots stay free for anything else."""
     from gvmon.run import load_known
 
-    listed = "F-C16-1" in load_known("C16")
-    _STATE["f161"] += 1
-    if listed or _STATE["f161"] <= 2:
-        ctx.violation(case, {"why": "%s (%s)" % (F161, step), "error": repr(ex), "criteria": desc})
+    _STATE[fid] += 1
+    if fid in load_known("C16") or _STATE[fid] <= 2:
+        ctx.violation(case, detail)
     else:
-        ctx.mon("F-C16-1 pattern seen again (reported twice per shard, then only counted)")
+        ctx.mon("%s pattern seen again (reported twice per shard, then only counted)" % fid)
+
+
+def report_f161(ctx, case, step, desc, ex):
+    report_pattern(ctx, case, "F-C16-1", {"why": "%s (%s)" % (F161, step), "error": repr(ex), "criteria": desc})
 
 
 def execute(ctx, case):
@@ -604,8 +618,11 @@ def run(ctx):
         desc = list(M.DEFAULT) if rng.random() < 0.4 else G.criteria(rng)
         if is_default(desc) and rng.random() < 0.6:
             rows = G.group_then_start(rows)
-        case = {"kind": "merge", "source": "db", "feats": rows, "ids": G.ids_for(rng, rows), "criteria": desc,
+        shaped = rng.random() < 0.1
+        case = {"kind": "merge", "source": "db", "feats": rows, "ids": G.ids_for(rng, rows, shaped=shaped), "criteria": desc,
                 "again": rng.random() < 0.5, "second": G.criteria(rng), "dbfile": rng.random() < 0.2}
+        if shaped:
+            ctx.classes["merge/random db with ids of the form <featuretype>_<n>"] += 1
         run_merge_case(ctx, case, "merge/random db")
     # 3. merge_all
     for _ in range(ctx.budget(1200, 32000)):
